@@ -143,7 +143,7 @@ def generate(tier, seed):
                 items.append({'family': 'fresh-name-taken', 'formula': f, 'var': x, 'term': t})
                 items.append({'family': 'fresh-name-taken', 'formula': exists(bs, inner), 'var': x, 'term': t})
     # seeded random tail
-    n = 3000 if tier == 'quick' else 50000
+    n = 3000 if tier == 'quick' else 200000
     for _ in range(n):
         pool = VARS if rnd.random() < 0.5 else CORE
         f = rand_formula(rnd, rnd.choice([1, 2, 2, 3]), pool)
